@@ -72,6 +72,8 @@ fn generate_or_load_identity(
     if !key_path.exists() || !cert_path.exists() {
         log::debug!("Generating a new keypair in {key_path:?}, it didn't exist",);
         let keypair = KeyPair::generate()?;
+        #[cfg(feature = "verif")]
+        teos_common::verif::crash_point("tls:write-key");
         std::fs::write(&key_path, keypair.serialize_pem())?;
         log::debug!("Generating a new certificate for key {key_path:?} at {cert_path:?}",);
 
@@ -87,6 +89,8 @@ fn generate_or_load_identity(
             .distinguished_name
             .push(rcgen::DnType::CommonName, name);
 
+        #[cfg(feature = "verif")]
+        teos_common::verif::crash_point("tls:write-certificate");
         std::fs::write(
             &cert_path,
             match parent {
